@@ -190,11 +190,16 @@ impl<'a> ValueStack<'a> {
     ///
     /// See <https://learn.microsoft.com/en-us/typography/opentype/spec/tt_instructions#copy-the-indexed-element-to-the-top-of-the-stack>
     pub fn copy_index(&mut self) -> Result<(), HintErrorKind> {
-        let top_ix = self.len.checked_sub(1).ok_or(ValueStackUnderflow)?;
-        let index = *self.values.get(top_ix).ok_or(ValueStackUnderflow)? as usize;
-        let element_ix = top_ix.checked_sub(index).ok_or(ValueStackUnderflow)?;
-        self.values[top_ix] = self.values[element_ix];
-        Ok(())
+        let index = self.pop()?;
+        // FreeType: an index outside 1..=depth is an error in pedantic mode
+        // only (ttinterp.c, Ins_CINDEX); otherwise 0 is pushed.
+        if index <= 0 || index as usize > self.len {
+            if self.is_pedantic {
+                return Err(HintErrorKind::InvalidStackValue(index));
+            }
+            return self.push(0);
+        }
+        self.push(self.values[self.len - index as usize])
     }
 
     /// Moves the indexed element to the top of the stack.
@@ -203,15 +208,20 @@ impl<'a> ValueStack<'a> {
     ///
     /// See <https://learn.microsoft.com/en-us/typography/opentype/spec/tt_instructions#move-the-indexed-element-to-the-top-of-the-stack>
     pub fn move_index(&mut self) -> Result<(), HintErrorKind> {
-        let top_ix = self.len.checked_sub(1).ok_or(ValueStackUnderflow)?;
-        let index = *self.values.get(top_ix).ok_or(ValueStackUnderflow)? as usize;
-        let element_ix = top_ix.checked_sub(index).ok_or(ValueStackUnderflow)?;
-        let new_top_ix = top_ix.checked_sub(1).ok_or(ValueStackUnderflow)?;
+        let index = self.pop()?;
+        // FreeType: an index outside 1..=depth is an error in pedantic mode
+        // only (ttinterp.c, Ins_MINDEX); otherwise only the index is popped.
+        if index <= 0 || index as usize > self.len {
+            if self.is_pedantic {
+                return Err(HintErrorKind::InvalidStackValue(index));
+            }
+            return Ok(());
+        }
+        let element_ix = self.len - index as usize;
         let value = self.values[element_ix];
         self.values
             .copy_within(element_ix + 1..self.len, element_ix);
-        self.values[new_top_ix] = value;
-        self.len -= 1;
+        self.values[self.len - 1] = value;
         Ok(())
     }
 
